@@ -2,6 +2,7 @@ import TsVerif.C04.Lemmas
 import TsVerif.C04.LemmasIter
 import TsVerif.C04.Judge
 import TsVerif.C04.Geometry
+import TsVerif.C04.Ends
 /-!
 # C04 — Changed ranges cover every position whose ancestor chain changed
 
@@ -17,15 +18,19 @@ Clause map (theorems are about the ports in `Ranges.lean` / `Iter.lean`, which a
 * included-range symmetric difference
   (`ts_range_array_get_changed_ranges`)                        → `symDiff_spec`, `symDiff_inside`
 * the override test (`ts_range_array_intersects`)              → `intersects_spec`
-* "sorted, disjoint, inside the document" for the tree walk    → `changed_sorted_bounded_partial`
-  (hypothesis `traceAdmissible`: every call to `ts_range_array_add` starts after the last range or
-  ends after its start; evaluated by the driver on every real case.  OPEN: `changed_sorted_bounded`,
-  the same statement without the hypothesis, i.e. a proof that the lock-step walk only makes
-  admissible calls for ALL pairs of trees — needs the geometric invariants of the two cursors.)
-* "every character whose stack differs is covered"            → `changed_covers_partial` (under MatchSound /
-  PassSound and two shape hypotheses on the walk's trace, all discharged per real case by the driver) and,
-  independently, decided per case by the Lean judge (`Judge.lean`) on the real outputs; OPEN as an
-  unconditional theorem (`changed_covers`).
+* "sorted, disjoint, inside the document" for the tree walk    → `changed_sorted_bounded`: for ALL pairs of
+  *sized* trees (`AllSized`: every inner node's padding/size is what `ts_subtree_summarize_children` computes
+  from its children — decidable, `allSizedB`, evaluated per real case) whose walk starts inside both trees
+  (`entryOK`; implied by "both roots start at the same offset", `entryOK_of_same_start`; needed, see
+  `entry_needed_witness`) and did not exhaust the model's fuel: the ranges are sorted, separated, well formed
+  and end inside the longer tree.  Rests on the loop invariant of the lock-step walk (`Ends.lean`:
+  `Inv`, `loopBody_inv`, `mainLoop_spanOK`) and on (iii) `ascend_end`, (v) `end_le`.
+  `changed_sorted_bounded_partial` (hypothesis `traceAdmissible`, evaluated per case) remains for the
+  pairs outside those premises.
+* "every character whose stack differs is covered"            → `changed_covers` (same premises plus
+  MatchSound / PassSound, which is where parser determinism enters and which the driver discharges per real
+  case); `changed_covers_partial` keeps the evaluated shape hypotheses for pairs outside the premises;
+  independently, decided per case by the Lean judge (`Judge.lean`) on the real outputs.
 * "also when the included ranges changed"                      → OPEN and FALSE for the code as it is:
   `override_span_witness` (genuine defect, known_findings/C04.json, fixes/C04-range-override-in-padding.diff)
 
@@ -212,6 +217,75 @@ theorem changed_covers_partial {α : Type} (al : AliasTable) (fixed : Bool) (old
 example : traceGrow [] [(⟨1,⟨0,1⟩⟩, ⟨5,⟨0,5⟩⟩), (⟨5,⟨0,5⟩⟩, ⟨7,⟨0,7⟩⟩), (⟨3,⟨0,3⟩⟩, ⟨9,⟨0,9⟩⟩)] = true ∧
     spansTile 1 [(⟨1,⟨0,1⟩⟩, ⟨5,⟨0,5⟩⟩, 0), (⟨5,⟨0,5⟩⟩, ⟨5,⟨0,5⟩⟩, 2), (⟨5,⟨0,5⟩⟩, ⟨7,⟨0,7⟩⟩, 1)] = true := by decide
 
+
+/-! ## The walk's geometry: what holds for ALL sized tree pairs
+
+Premises (all decidable and evaluated by the driver on every real case):
+* `AllSized old`, `AllSized new` (via `allSizedB`, `allSizedB_sound`);
+* `entryOK old new`: the loop starts at or before the end of both trees;
+* the model's fuel did not run out (`fuelOut = false`; the fuel only bounds the model's recursion — the C loops
+  have no counterpart — and the driver reports any case in which it is exhausted). -/
+
+/-- `spans_forward`: no iteration of the lock-step walk goes backwards: `position ≤ next_position`. -/
+theorem spans_forward (al : AliasTable) (fixed : Bool) (old new : Tree) (diffs : List TSRange)
+    (hso : AllSized old) (hsn : AllSized new) (hentry : entryOK old new = true)
+    (hfuel : (changedRanges al fixed old new diffs).fuelOut = false) :
+    spansMono (changedRanges al fixed old new diffs).spans = true := by
+  unfold spansMono
+  rw [List.all_eq_true]
+  intro x hx
+  exact decide_eq_true (walk_trace al fixed old new diffs hso hsn hentry hfuel x hx).2.1
+
+/-- `trace_grows`: every call to `ts_range_array_add` made by `ts_subtree_get_changed_ranges` starts after the last
+range, or inside it and ends at or after its end — nothing that was covered gets uncovered. -/
+theorem trace_grows (al : AliasTable) (fixed : Bool) (old new : Tree) (diffs : List TSRange)
+    (hso : AllSized old) (hsn : AllSized new) (hentry : entryOK old new = true)
+    (hfuel : (changedRanges al fixed old new diffs).fuelOut = false) :
+    traceGrow [] ((changedRanges al fixed old new diffs).main ++ (changedRanges al fixed old new diffs).post) = true :=
+  (walk_calls al fixed old new diffs hso hsn hentry hfuel).1
+
+/-- `changed_sorted_bounded` — "sorted, disjoint, inside the document" for the tree walk, for ALL pairs of sized
+trees, alias tables and difference lists: the reported ranges are sorted, pairwise strictly separated, well
+formed (`start ≤ end`) and end at or before the end of the longer tree. -/
+theorem changed_sorted_bounded (al : AliasTable) (fixed : Bool) (old new : Tree) (diffs : List TSRange)
+    (hso : AllSized old) (hsn : AllSized new) (hentry : entryOK old new = true)
+    (hfuel : (changedRanges al fixed old new diffs).fuelOut = false) :
+    WeakSorted (changedRanges al fixed old new diffs).ranges ∧
+    ∀ r ∈ (changedRanges al fixed old new diffs).ranges, r.end_byte ≤ max old.totalBytes new.totalBytes := by
+  obtain ⟨_, ha, hb⟩ := walk_calls al fixed old new diffs hso hsn hentry hfuel
+  obtain ⟨h1, h2⟩ := changed_sorted_bounded_partial al fixed old new diffs ha
+  exact ⟨h1, fun r hr => Nat.le_trans (h2 r hr) hb⟩
+
+/-- `changed_covers` — the coverage clause for the walk, for ALL pairs of sized trees: under MatchSound / PassSound
+(on every span the walk did not hand to `add` the two per-byte stacks agree) every byte from the loop start to
+the end of the walk whose stacks differ lies in a reported range, and so does every byte of the call made
+before the loop and of the final size-difference call. -/
+theorem changed_covers {α : Type} (al : AliasTable) (fixed : Bool) (old new : Tree)
+    (diffs : List TSRange) (so sn : Nat → α)
+    (hso : AllSized old) (hsn : AllSized new) (hentry : entryOK old new = true)
+    (hfuel : (changedRanges al fixed old new diffs).fuelOut = false)
+    (hsound : ∀ sp ∈ (changedRanges al fixed old new diffs).spans, sp.2.2 ≠ 0 →
+      ∀ p, sp.1.bytes ≤ p → p < sp.2.1.bytes → so p = sn p) :
+    (∀ p, loopStart old new ≤ p → p < spansEnd (loopStart old new) (changedRanges al fixed old new diffs).spans → so p ≠ sn p →
+      mem (changedRanges al fixed old new diffs).ranges p) ∧
+    (∀ c ∈ (changedRanges al fixed old new diffs).pre ++ (changedRanges al fixed old new diffs).post,
+      ∀ p, c.1.bytes ≤ p → p < c.2.bytes → mem (changedRanges al fixed old new diffs).ranges p) :=
+  changed_covers_partial al fixed old new diffs so sn
+    (trace_grows al fixed old new diffs hso hsn hentry hfuel)
+    (spans_forward al fixed old new diffs hso hsn hentry hfuel) hsound
+
+/-- The entry premise holds whenever both roots start at the same offset (the usual case: the old tree was edited
+to the new text, so both start after the same leading padding). -/
+theorem entry_of_same_start (old new : Tree)
+    (h : (iterNew old).startPosition.bytes = (iterNew new).startPosition.bytes) : entryOK old new = true :=
+  entryOK_of_same_start old new h
+
+/-- (iii) on sized trees `iterator_ascend` never moves the end position backwards. -/
+theorem ascend_never_back (al : AliasTable) (it : Iter) (e p : Entry) (rest : List Entry)
+    (hs : it.stack = e :: p :: rest) (hok : StackOK it.stack) (hss : SS it.stack) :
+    (it.ascend al).endPosition.bytes ≥ it.endPosition.bytes :=
+  ascend_end al it e p rest hs hok hss
+
 /-! ## The coverage clause when the included ranges changed: OPEN, and false for the code as it is
 
 OPEN `changed_covers_ranges` (DESIGN §7): "a byte whose scope stacks differ and which lies in a
@@ -243,6 +317,16 @@ theorem override_span_witness :
     covered (changedRanges {} false wOld wNew wDiffs).ranges 1 = false ∧
     ((changedRanges {} false wOld wNew wDiffs).ranges.map fun r => (r.start_byte, r.end_byte)) = [(0,1),(2,3)] ∧
     ((changedRanges {} true wOld wNew wDiffs).ranges.map fun r => (r.start_byte, r.end_byte)) = [(0,3)] := by
+  decide
+
+/-- Non-vacuity of the premises (the witness pair of `override_span_witness` is sized, enters inside both trees and
+needs no more fuel), and the entry premise cannot be dropped: a new tree that ends before the old one starts
+makes the first iteration go backwards, from 11 to 6. -/
+theorem entry_needed_witness :
+    (allSizedB wOld = true ∧ allSizedB wNew = true ∧ entryOK wOld wNew = true ∧
+      (changedRanges {} true wOld wNew wDiffs).fuelOut = false) ∧
+    (allSizedB (wLeaf 1 11 1) = true ∧ allSizedB (wLeaf 1 2 4) = true ∧ entryOK (wLeaf 1 11 1) (wLeaf 1 2 4) = false ∧
+      ((changedRanges {} true (wLeaf 1 11 1) (wLeaf 1 2 4) []).spans.map fun x => (x.1.bytes, x.2.1.bytes)) = [(11, 6)]) := by
   decide
 
 end TsVerif.C04
